@@ -182,6 +182,7 @@ def main():
         rest = [c for c in cases if not c[0].startswith("generated.")]
         cases = gen_cases + rng.sample(rest, 700)
     lines, meta = [], []
+    last_classified = []
     for name, co, insts in cases:
         # --- real
         try:
@@ -208,6 +209,10 @@ def main():
         lines.append("BCSPEC " + ",".join(tins))
         lines.append("GI " + ",".join(map(str, offs)) + " " + (",".join(f"{b}:{e}" for _, b, e, _ in real) if real else "-"))
         meta.append((name, real, real_abort, offs, sorted({i.opname for i in insts if truth_class(i) != "o"}), got_insts))
+        # hypothesis of Scfg.C09.buildBlocks_total: the tables classify the stream's last instruction
+        last_classified.append(insts[-1].opname in (utils._cond_jump | utils._uncond_jump | utils._terminating)
+                               if isinstance(utils._cond_jump, (set, frozenset)) else
+                               insts[-1].opname in set(utils._cond_jump) | set(utils._uncond_jump) | set(utils._terminating))
     p = subprocess.run([driver], input="\n".join(lines) + "\n", capture_output=True, text=True)
     rep = p.stdout.split("\n")
     mism, viol = [], []
@@ -271,6 +276,7 @@ def main():
                       "violations": viol[:200], "n_violations": len(viol),
                       "table_offenders": table_offenders(), "jump_ops_seen": sorted(ops_seen),
                       "tables": tabs, "sample": meta[0][0] if meta else None,
+                      "last_instruction_classified": [sum(1 for x in last_classified if x), len(last_classified)],
                       "driver_rc": p.returncode}))
 
 
